@@ -6,15 +6,22 @@ Import ListNotations.
 Open Scope N_scope.
 
 (* ---------- split_blocks ---------- *)
+Lemma shorter_spec : forall n l, shorter l n = (length l <? n)%nat.
+Proof.
+  induction n as [|n IH]; intros l.
+  - destruct l; reflexivity.
+  - destruct l as [|x r]; cbn [shorter length]; [reflexivity|]. rewrite IH. reflexivity.
+Qed.
+
 Lemma split_go_fuel bs : (1 <= bs)%nat -> forall f1 f2 l,
   (length l <= f1)%nat -> (length l <= f2)%nat -> split_go f1 bs l = split_go f2 bs l.
 Proof.
   intros Hbs; induction f1 as [|f1 IH]; intros f2 l H1 H2.
-  - destruct l; [|simpl in H1; lia]. destruct f2; simpl; [reflexivity|].
-    destruct (Nat.ltb_spec 0 bs); [reflexivity|lia].
+  - destruct l; [|simpl in H1; lia]. destruct f2; cbn [split_go]; [reflexivity|].
+    rewrite shorter_spec. cbn [length]. destruct (Nat.ltb_spec 0 bs); [reflexivity|lia].
   - destruct f2 as [|f2].
-    + destruct l; [|simpl in H2; lia]. simpl. destruct (Nat.ltb_spec 0 bs); [reflexivity|lia].
-    + cbn [split_go]. destruct (Nat.ltb_spec (length l) bs) as [Hlt|Hge]; [reflexivity|].
+    + destruct l; [|simpl in H2; lia]. cbn [split_go]. rewrite shorter_spec. cbn [length]. destruct (Nat.ltb_spec 0 bs); [reflexivity|lia].
+    + cbn [split_go]. rewrite shorter_spec. destruct (Nat.ltb_spec (length l) bs) as [Hlt|Hge]; [reflexivity|].
       f_equal. apply IH; rewrite skipn_length; lia.
 Qed.
 
@@ -22,7 +29,7 @@ Lemma split_go_concat bs : forall f l, concat (split_go f bs l) = l.
 Proof.
   induction f as [|f IH]; intros l; cbn [split_go].
   - simpl. apply app_nil_r.
-  - destruct (length l <? bs)%nat; simpl; [apply app_nil_r|].
+  - destruct (shorter l bs); simpl; [apply app_nil_r|].
     rewrite IH. apply firstn_skipn.
 Qed.
 
@@ -41,7 +48,7 @@ Lemma split_go_framed bs : (1 <= bs)%nat -> forall f l, (length l <= f)%nat -> f
 Proof.
   intros Hbs; induction f as [|f IH]; intros l Hl; cbn [split_go].
   - destruct l; simpl in *; lia.
-  - destruct (Nat.ltb_spec (length l) bs) as [Hlt|Hge]; [exact Hlt|].
+  - rewrite shorter_spec. destruct (Nat.ltb_spec (length l) bs) as [Hlt|Hge]; [exact Hlt|].
     assert (Hr : framed bs (split_go f bs (skipn bs l))) by (apply IH; rewrite skipn_length; lia).
     cbn [framed]. destruct (split_go f bs (skipn bs l)) eqn:E; [destruct Hr|].
     split; [rewrite firstn_length; lia|exact Hr].
@@ -55,7 +62,7 @@ Lemma split_go_length bs : (1 <= bs)%nat -> forall f l, (length l <= f)%nat ->
 Proof.
   intros Hbs; induction f as [|f IH]; intros l Hl; cbn [split_go].
   - destruct l; simpl in *; [|lia]. rewrite Nat.div_0_l; lia.
-  - destruct (Nat.ltb_spec (length l) bs) as [Hlt|Hge].
+  - rewrite shorter_spec. destruct (Nat.ltb_spec (length l) bs) as [Hlt|Hge].
     + rewrite Nat.div_small; auto.
     + cbn [length]. rewrite IH by (rewrite skipn_length; lia). rewrite skipn_length.
       f_equal. replace (length l) with ((length l - bs) + 1 * bs)%nat at 2 by lia.
@@ -120,45 +127,67 @@ Section ReaderProofs.
       apply IH. cbn [source]. rewrite Hs in Hf. rewrite app_length in Hf. simpl in Hf. lia.
   Qed.
 
-  Lemma read_fst size st : fst (read F scan size st) = firstn size (stream st).
+  Lemma fill_rest fuel size st :
+    (length (rest (source (fill F scan fuel size st))) <= length (rest (source st)))%nat.
   Proof.
-    unfold read; cbn [fst].
-    pose proof (fill_stream (S (length (rest (source st)))) size st) as Hs.
-    pose proof (fill_done (S (length (rest (source st)))) size st ltac:(lia)) as Hd.
+    revert st; induction fuel as [|fuel IH]; intros st; cbn [fill]; [lia|].
+    destruct (Nat.leb_spec size (length (buf st))) as [Hle|Hgt]; [lia|].
+    pose proof (src_read_split (size - length (buf st)) (source st)) as Hs.
+    destruct (src_read (size - length (buf st)) (source st)) as [new s'] eqn:E.
+    cbn [fst snd] in *.
+    destruct new as [|x new].
+    - cbn [source]. rewrite Hs. simpl. lia.
+    - destruct (scan (carry st) (x :: new)) as [out c'] eqn:Es.
+      etransitivity; [apply IH|]. cbn [source]. rewrite Hs, app_length. lia.
+  Qed.
+
+  Lemma read_fst ff size st : (length (rest (source st)) < ff)%nat ->
+    fst (read F scan ff size st) = firstn size (stream st).
+  Proof.
+    intros Hff. unfold read; cbn [fst].
+    pose proof (fill_stream ff size st) as Hs.
+    pose proof (fill_done ff size st Hff) as Hd.
     cbv zeta in Hd.
-    set (st' := fill F scan (S (length (rest (source st)))) size st) in *.
+    set (st' := fill F scan ff size st) in *.
     rewrite <- Hs. unfold stream. destruct Hd as [Hd|Hd].
     - rewrite firstn_app. replace (size - length (buf st'))%nat with 0%nat by lia.
       simpl. now rewrite app_nil_r.
     - rewrite Hd, ev_nil, app_nil_r. reflexivity.
   Qed.
 
-  Lemma read_snd size st : stream (snd (read F scan size st)) = skipn size (stream st).
+  Lemma read_snd ff size st : (length (rest (source st)) < ff)%nat ->
+    stream (snd (read F scan ff size st)) = skipn size (stream st).
   Proof.
-    unfold read; cbn [snd].
-    pose proof (fill_stream (S (length (rest (source st)))) size st) as Hs.
-    pose proof (fill_done (S (length (rest (source st)))) size st ltac:(lia)) as Hd.
+    intros Hff. unfold read; cbn [snd].
+    pose proof (fill_stream ff size st) as Hs.
+    pose proof (fill_done ff size st Hff) as Hd.
     cbv zeta in Hd.
-    set (st' := fill F scan (S (length (rest (source st)))) size st) in *.
+    set (st' := fill F scan ff size st) in *.
     rewrite <- Hs. unfold stream; cbn [buf carry source]. destruct Hd as [Hd|Hd].
     - rewrite skipn_app. replace (size - length (buf st'))%nat with 0%nat by lia. reflexivity.
     - rewrite Hd, ev_nil, !app_nil_r. reflexivity.
   Qed.
 
-  Lemma read_blocks_spec bs : (1 <= bs)%nat -> forall fuel st,
+  Lemma read_rest ff size st :
+    (length (rest (source (snd (read F scan ff size st)))) <= length (rest (source st)))%nat.
+  Proof. unfold read; cbn [snd source]. apply fill_rest. Qed.
+
+  Lemma read_blocks_spec ff bs : (1 <= bs)%nat -> forall fuel st,
+    (length (rest (source st)) < ff)%nat ->
     (length (stream st) < fuel)%nat ->
-    read_blocks F scan fuel bs st = split_go fuel bs (stream st).
+    read_blocks F scan ff fuel bs st = split_go fuel bs (stream st).
   Proof.
-    intros Hbs; induction fuel as [|fuel IH]; intros st Hf; [lia|].
+    intros Hbs; induction fuel as [|fuel IH]; intros st Hff Hf; [lia|].
     cbn [read_blocks split_go].
-    pose proof (read_fst bs st) as H1. pose proof (read_snd bs st) as H2.
-    destruct (read F scan bs st) as [d st'] eqn:E. cbn [fst snd] in *.
-    subst d. rewrite firstn_length.
+    pose proof (read_fst ff bs st Hff) as H1. pose proof (read_snd ff bs st Hff) as H2.
+    pose proof (read_rest ff bs st) as H3.
+    destruct (read F scan ff bs st) as [d st'] eqn:E. cbn [fst snd] in *.
+    subst d. rewrite firstn_length, shorter_spec.
     destruct (Nat.ltb_spec (length (stream st)) bs) as [Hlt|Hge].
     - destruct (Nat.eqb_spec (Nat.min bs (length (stream st))) bs) as [He|He]; [lia|].
       rewrite firstn_all2 by lia. reflexivity.
     - destruct (Nat.eqb_spec (Nat.min bs (length (stream st))) bs) as [He|He]; [|lia].
-      f_equal. rewrite IH, H2; [reflexivity|]. rewrite H2, skipn_length. lia.
+      f_equal. rewrite IH, H2; [reflexivity|lia|]. rewrite H2, skipn_length. lia.
   Qed.
 End ReaderProofs.
 
@@ -173,6 +202,7 @@ Proof.
   - reflexivity.
   - reflexivity.
   - exact Hbs.
+  - cbn. lia.
   - rewrite Hs. lia.
 Qed.
 
@@ -271,6 +301,7 @@ Proof.
   - reflexivity.
   - intros f a b Ha. rewrite scan_chunk_eager by auto. apply eager_app.
   - exact Hbs.
+  - cbn. lia.
   - rewrite Hs. lia.
 Qed.
 
